@@ -26,7 +26,7 @@ def judge(ctx, fam, cases, ex, nontrivial, stats):
         al = v["allow"]
         ctx.cov["evaluations"] += 1
         a, val = under_test(v, fam)
-        if fam == "wf" or a["loc"] != "message" or a["nest"] != "direct" or a["mode"] != "required" or a["rule"] != "none":
+        if fam in ("wf", "xm") or a["loc"] != "message" or a["nest"] != "direct" or a["mode"] != "required" or a["rule"] != "none":
             nontrivial.add(core.canon([fam, gg.shape_of(v), v["pv"], v["rv"], c.get("sent"), c.get("rsent")]))
         problems = []
         if c["accepted"] != al["accept"]:
@@ -59,8 +59,8 @@ def judge(ctx, fam, cases, ex, nontrivial, stats):
         for what, detail in problems:
             dev = ex.explain(c, focus=FOCUS["eval" if what.startswith("eval/") else ("wf" if what.startswith("wf/") else "run")])
             key = dev or "C10/%s/%s/%s/%s" % (fam, gc.attr_tag(a), gc.val_tag(val).rsplit(":", 2)[0], what)
-            ctx.violation(key, ("[explained by deviation %s] " % dev if dev else "") + "%s attribute %s value %s (tagmode %s, metadata companion %s, stream %s): %s %s" % (
-                fam, gc.attr_tag(a), gc.val_tag(val), v["tagmode"], v["withmd"], v["stream"], what, detail), gc.short_case(c))
+            ctx.violation(key, ("[explained by deviation %s] " % dev if dev else "") + "%s attribute %s value %s (tagmode %s, metadata companion %s, explicit message %s, raw request %s, stream %s): %s %s" % (
+                fam, gc.attr_tag(a), gc.val_tag(val), v["tagmode"], v["withmd"], v.get("explicit", False), v.get("raw", False), v["stream"], what, detail), gc.short_case(c))
 
 
 def known_deviations(ctx):
@@ -166,7 +166,7 @@ def run(ctx):
     nontrivial = set()
     stats = {"unusable": 0, "ran": 0, "ran_by_loc": {}, "uncompilable": {}, "generator_failed": {}}
     frac = float(os.environ.get("VERIF_FRAC") or (0.1 if quick else 1.0))
-    fams = (os.environ.get("VERIF_FAMS") or "wf,req,res").split(",")
+    fams = (os.environ.get("VERIF_FAMS") or "wf,xm,req,res").split(",")
     selftest = ctx.selftest or not quick
     # (M) vacuity: with each named deviation the model violates the property
     for d in gc.DEVIATIONS:
@@ -174,7 +174,7 @@ def run(ctx):
     for fam in fams:
         # (M)+(G): one TLC run checks the invariants over the whole family and emits the cases
         vectors = gc.gen_vectors(ctx, fam)
-        if fam != "wf":
+        if fam in ("req", "res"):
             vectors = gc.sample_shapes(vectors, frac, ctx.seed)
         family = gc.Family(ctx, fam, vectors)
         cases, pl = family.run(vectors), family.pl
@@ -184,11 +184,11 @@ def run(ctx):
         judge(ctx, fam, cases, gc.Explainer(ctx, fam), nontrivial, stats)
         # (J) trace validation of what was recorded
         tr = cases if len(cases) <= 2500 else random.Random(ctx.seed).sample(cases, 2500)
-        validate_traces(ctx, fam, tr, gc.Explainer(ctx, fam), fam, selftest=selftest and fam in ("wf", "req"))
+        validate_traces(ctx, fam, tr, gc.Explainer(ctx, fam), fam, selftest=selftest and fam in ("wf", "xm", "req"))
         ctx.cov["designs_" + fam] = len(pl.designs)
         ctx.cov["designs_failed_" + fam] = len(pl.failed)
         # (J) random mode: other members of the value classes, judged by the oracle and validated as a trace
-        if fam != "wf":
+        if fam in ("req", "res"):
             rng = random.Random(ctx.seed * 7919 + len(fam))
             n = 500 if quick else 5000
             pool = [v for v in vectors if not hg.is_absent(under_test(v, fam)[1])]
